@@ -55,6 +55,8 @@ pred Same(p *pp) = p.buf.mode == old(p.buf.mode) && p.override == old(p.override
 pred Kept(p *pp) = p.panicking == old(p.panicking) && p.erroring == old(p.erroring) && p.wrapErrs == old(p.wrapErrs) && p.wrappedErr == old(p.wrappedErr) && p.arg == old(p.arg) && p.value == old(p.value) && p.fmt.wid == old(p.fmt.wid) && p.fmt.prec == old(p.fmt.prec) && p.fmt.widPresent == old(p.fmt.widPresent) && p.fmt.precPresent == old(p.fmt.precPresent) && p.fmt.minus == old(p.fmt.minus) && p.fmt.plus == old(p.fmt.plus) && p.fmt.sharp == old(p.fmt.sharp) && p.fmt.space == old(p.fmt.space) && p.fmt.zero == old(p.fmt.zero) && p.fmt.plusV == old(p.fmt.plusV) && p.fmt.sharpV == old(p.fmt.sharpV) && p.reordered == old(p.reordered) && p.goodArgNum == old(p.goodArgNum)
 -- C16: the operand list a (and format f) reached the funnel of kind k exactly once on printer p
 pred Funnel(p *pp, k int, a []interface{}) = p.gdp == 1 && p.gdk == k && p.gdar == ref(a) && p.gdao == off(a) && p.gdal == len(a)
+-- no directive is in progress: every formatter flag is clear (doPrint/doPrintln never clear them themselves)
+pred FlagsClear(f *fmt) = !f.widPresent && !f.precPresent && !f.minus && !f.plus && !f.sharp && !f.space && !f.zero && !f.plusV && !f.sharpV
 -- what sync.Pool may hold
 pred PoolInv(p *pp) = len(p.buf.buf) == 0 && p.buf.validUntil == 0 && p.buf.mode == UnsafeEscaped && !p.buf.markerOpen && p.override == 0 && p.buf.gctx == 0 && isnil(p.arg) && isnil(p.wrappedErr)
 pred Pristine(p *pp) = PoolInv(p) && p.fmt.wid == 0 && p.fmt.prec == 0 && p.gdp == 0 && p.gnw == 0 && !p.gw0 && !p.panicking && !p.erroring && !p.wrapErrs && p.fmt.buf == p.buf && !p.fmt.widPresent && !p.fmt.precPresent && !p.fmt.minus && !p.fmt.plus && !p.fmt.sharp && !p.fmt.space && !p.fmt.zero && !p.fmt.plusV && !p.fmt.sharpV
@@ -431,6 +433,11 @@ assume func Sprintfn_printer(p *pp)
   may-panic
   ensures-always PI(p) && Same(p) && Kept(p) && WP(p.fmt) && inv(p.buf)
 
+-- the registered hook is the function the caller gave, not a stand-in for it (C17)
+func RegisterRedactErrorFn(fn func(err error, p i.SafePrinter, verb rune))
+  modifies G$redactErrorFn
+  ensures [C17] redactErrorFn == fn
+
 func newPrinter() (r *pp)
   nosweep
   modifies alloc
@@ -759,6 +766,8 @@ func (p *pp) doPrintf(format string, a []interface{})
 
 func (p *pp) doPrint(a []interface{})
   requires PI(p) && !p.panicking && !p.erroring && WP(p.fmt)
+  -- the operands are rendered as by %v with no flags: whoever prepares the printer must not carry the flags of an enclosing directive over
+  requires [C05,C16] FlagsClear(p.fmt)
   ghost p.gdp = p.gdp + 1 at entry
   ghost p.gdk = 1 at entry
   ghost p.gdar = ref(a) at entry
@@ -773,6 +782,8 @@ func (p *pp) doPrint(a []interface{})
 
 func (p *pp) doPrintln(a []interface{})
   requires PI(p) && !p.panicking && !p.erroring && WP(p.fmt)
+  -- the operands are rendered as by %v with no flags: whoever prepares the printer must not carry the flags of an enclosing directive over
+  requires [C05,C16] FlagsClear(p.fmt)
   ghost p.gdp = p.gdp + 1 at entry
   ghost p.gdk = 3 at entry
   ghost p.gdar = ref(a) at entry
